@@ -123,3 +123,18 @@ Print Assumptions C02_oracle_sound.
 Theorem C02_restore_invariant : forall ops, prun_r ops = prun (fills_of_ops ops).
 Proof. exact prun_restore_invariant. Qed.
 Print Assumptions C02_restore_invariant.
+
+(** A rejected input leaves the state exactly as it was: a fill whose instrument key differs from
+    the open position's takes the "different instrument" arm of Position::update_from_trade - no
+    closed record, the position (quantity, PnL, fees, trade ids) and the records emitted so far
+    untouched - and the rest of the history runs as if that fill had never been delivered. *)
+Theorem C02_rejected_fill_noop : forall p xs f, f_inst f <> p_inst p ->
+  pm_update (Some p) f = (Some p, None) /\ pstep (Some p, xs) f = (Some p, xs).
+Proof. exact rejected_fill_noop. Qed.
+Print Assumptions C02_rejected_fill_noop.
+
+Theorem C02_rejected_fill_noop_history : forall i fs g rest,
+  Forall (valid_fill i) fs -> fst (prun fs) <> None -> f_inst g <> i ->
+  prun (fs ++ g :: rest) = prun (fs ++ rest).
+Proof. exact rejected_fill_noop_history. Qed.
+Print Assumptions C02_rejected_fill_noop_history.
